@@ -7,7 +7,7 @@ Driver for C30.  State = the `Traverse` adjacency of the current world as dumped
 ops (points `n<k>`, segments `w<way>.<first>.<last>`, integer weights/distances, `inf` = +Inf):
   `world <kind> [p …]`                             answer `[pt/seg/first/last/usable/weight …]`  (recorded)
   `search <o> <max> zu=<0|1> bf=[p:d …]`           answer `[p:d:origin/seg-dest-cost/… …]` sorted by p
-  `searchto <o> <to> <max> zu=<0|1> bf=[p:d …]`    answer as above (all `byPoint` entries after `ExpandSearchTo`)
+  `searchto <o> <to> <max> zu=<0|1> bf=[p:d …]`    answer as above (all `byPoint` entries after `ExpandSearchTo`; `to` may be `o`)
   `access <o> <max> zu=<0|1> bf=[p:d …]`           answer `[p:d …] | [seg:n …]`: `ComputeAccessibility`'s distance for
                                                    every point the search reached, and its per-segment path counts
 
@@ -152,11 +152,13 @@ def searchToPredicate (w : World) (o dest : String) (max : Nat) (bf : List (Stri
   let want := match lookupBF bf dest with
     | some d => if d < max && onNetwork w o then some d else none
     | none => none
-  let destBad := match want, destEntry with
-    | some d, some en => !(en.dist == Dist.fin d)
-    | some _, none => true
-    | none, some en => !(en.dist == Dist.inf && en.steps.isEmpty)
-    | none, none => false
+  -- a finite entry must carry the true distance (the origin itself may be recorded at 0 whatever the limit);
+  -- `+Inf` / no entry is right exactly when the destination is not within the limit
+  let destBad := match destEntry with
+    | some en => match en.dist with
+      | .fin d => lookupBF bf dest != some d
+      | .inf => want.isSome || !en.steps.isEmpty
+    | none => want.isSome
   if destBad then some (if want.isSome then "complete" else "distance") else
   if ans.any (fun en => match en.dist with
       | .fin d => match lookupBF bf en.point with
@@ -269,17 +271,17 @@ def step (w : World) (op impl : String) : World × Verdict :=
     | some (head, bfText) =>
       match words head, parseBF bfText, parseEntries impl with
       | ["searchto", o, dest, maxS, zuS], some bf, some ans =>
-        match parseNat? maxS, w.ok, (zuS == "zu=1" || zuS == "zu=0"), o == dest with
-        | some max, true, true, false =>
+        match parseNat? maxS, w.ok, (zuS == "zu=1" || zuS == "zu=0") with
+        | some max, true, true =>
           let origins := if zuS == "zu=1" then [o] else []
           let fuel := 4 * (w.points.length + 4)
           let inf := max + 1
           match searchTo w.graph max inf origins dest fuel with
-          | some (.done s') =>
+          | .done s' =>
             let model := renderTable s'.t (some inf)
             (w, judge impl model (searchToPredicate w o dest max bf ans))
           | _ => (w, .bad)
-        | _, _, _, _ => (w, .bad)
+        | _, _, _ => (w, .bad)
       | _, _, _ =>
         match words head, parseBF bfText with
         | ["searchto", _, _, _, _], some _ => (w, .propfail "distance")
